@@ -102,7 +102,7 @@ def build(variant):
 
 def parse_log(path):
     """Parse a worker log. Returns dict(done, open_case, violations, stats, hang, oom, herr)."""
-    res = {"done": False, "open": None, "last_end": None, "viol": [], "stats": None, "hang": None, "oom": None, "herr": []}
+    res = {"done": False, "open": None, "last_end": None, "viol": [], "stats": None, "hang": None, "oom": None, "layout": None, "herr": []}
     if not os.path.exists(path):
         return res
     with open(path, "r", errors="replace") as f:
@@ -145,6 +145,8 @@ def parse_log(path):
                 res["hang"] = dict(kv.split("=", 1) for kv in line[5:].split() if "=" in kv)
             elif line.startswith("OOM "):
                 res["oom"] = dict(kv.split("=", 1) for kv in line[4:].split() if "=" in kv)
+            elif line.startswith("LAYOUT "):
+                res["layout"] = dict(kv.split("=", 1) for kv in line[7:].split() if "=" in kv)
     return res
 
 
@@ -290,6 +292,10 @@ def classify_crash(rc, pl, stderr_tail):
         return "hang", frame
     if pl.get("oom"):
         return "oom", "api:" + pl["oom"].get("label", "unknown")
+    if pl.get("layout"):
+        # the size-checking allocator of the harness: a block was freed / resized with a size other than the one it was
+        # allocated with (undefined behaviour of the caller, e.g. Vec::from_raw_parts with a wrong capacity)
+        return "dealloc-size-mismatch", "api:" + pl["layout"].get("label", "unknown")
     if "has overflowed its stack" in stderr_tail:
         return "stack-overflow", "unknown"
     m = re.search(r"ERROR: AddressSanitizer: ([a-z-]+)", stderr_tail)
